@@ -13,19 +13,19 @@ func init() {
 			return in.load(a[0].(Ptr)), true
 		}
 		intrinsicTable["sync/atomic.Store"+ty] = func(in *Interp, fn *ssa.Function, a []Value, s ssa.Instruction) (Value, bool) {
-			in.store(a[0].(Ptr), a[1])
+			in.atomicStore(a[0].(Ptr), a[1])
 			return unit(), true
 		}
 		intrinsicTable["sync/atomic.Swap"+ty] = func(in *Interp, fn *ssa.Function, a []Value, s ssa.Instruction) (Value, bool) {
 			old := in.load(a[0].(Ptr))
-			in.store(a[0].(Ptr), a[1])
+			in.atomicStore(a[0].(Ptr), a[1])
 			return old, true
 		}
 		intrinsicTable["sync/atomic.CompareAndSwap"+ty] = func(in *Interp, fn *ssa.Function, a []Value, s ssa.Instruction) (Value, bool) {
 			cur := in.load(a[0].(Ptr))
 			eq := in.valEq(cur, a[1])
 			if in.branch(eq, "atomic.CompareAndSwap") {
-				in.store(a[0].(Ptr), a[2])
+				in.atomicStore(a[0].(Ptr), a[2])
 				return in.tt.Bool(true), true
 			}
 			return in.tt.Bool(false), true
@@ -34,7 +34,7 @@ func init() {
 			intrinsicTable["sync/atomic.Add"+ty] = func(in *Interp, fn *ssa.Function, a []Value, s ssa.Instruction) (Value, bool) {
 				cur := in.term(in.load(a[0].(Ptr)))
 				nv := in.tt.BVBin("bvadd", cur, in.term(a[1]))
-				in.store(a[0].(Ptr), nv)
+				in.atomicStore(a[0].(Ptr), nv)
 				return nv, true
 			}
 		}
